@@ -30,7 +30,7 @@ STRATS = ["error", "warning", "replace", "create_unique", "merge"]
 
 def budget(tier):
     if tier == "quick":
-        return {"runs": 3000, "wall": 50, "chunk": 8}
+        return {"runs": 2400, "wall": 50, "chunk": 8}
     return {"runs": 100000, "wall": 1500, "chunk": 8}
 
 
@@ -71,7 +71,7 @@ def gen(rng, tier):
         steps.append({"op": "update", "feats": [feat(rng, gtf) for _ in range(rng.randint(1, 4))],
                       "strategy": rng.choice(STRATS + ["merge", "merge"]), "form": rng.choice(["path", "list", "gen", "iter1", "string"])})
     steps.append({"op": rng.choice(["reopen", "restart", "none"])})
-    return {"gtf": gtf, "fmf": fmf, "steps": steps}
+    return {"gtf": gtf, "fmf": fmf, "steps": steps, "fault_profile": rng.random() < 0.1, "fault_seed": rng.getrandbits(32)}
 
 
 def run(case):
@@ -183,6 +183,17 @@ def run(case):
             if not compare("after %s #%d (merge_strategy=%s%s)" % (k, si, strat, ", force_merge_fields=%r" % (list(fmf),) if fmf and strat == "merge" else "")):
                 break
         out["stats"] = w.stats
+    hard_v = [v for v in V if v["sig"].get("kind") != "replace_stale_parent_link"]
+    if case.get("fault_profile") and not gtf and not hard_v and not out.get("discarded"):
+        # the same collision history under faults: source failure positions, sql error / cancel / crash points,
+        # then reopen/restart and a further update (relaxed C10-style oracle: pre-state or prefix, ids never recycle)
+        from checks import c10
+        vs, st2, pr2 = c10.fault_profile(case["steps"], {"fmf": list(fmf)}, case["fault_seed"], "C05.faulted")
+        V.extend(v for v in vs if v["sig"].get("kind") != "replace_stale_parent_link" or True)
+        c10._merge_stats(out["stats"], st2)
+        for k2, v2 in pr2.items():
+            probes["faulted_" + k2] = probes.get("faulted_" + k2, 0) + v2
+        journal.append(("fault_profile", len(vs)))
     out["trace_hash"] = core.digest(journal)
     out["nontrivial"] = multi
     out["sample"] = {"gtf": gtf, "fmf": list(fmf),
